@@ -5,7 +5,7 @@ import "verif/sim/kit"
 func init() {
 	kit.Register(&kit.PropertySpec{
 		ID: "C34", Engine: "stakesim",
-		QuickRuns: 240, QuickBudgetS: 40, ThoroughRuns: 400000, ThoroughBudgetS: 600,
+		QuickRuns: 200, QuickBudgetS: 30, ThoroughRuns: 400000, ThoroughBudgetS: 600,
 		Rule: "one run = one tape-drawn configuration (term period 10-30 blocks, 4-8 P-Reps, 6-10 users, unstake lock 1-3 terms, 2-4 unstake slots, " +
 			"validation-penalty conditions 2-4 / 1-2, slashing rates drawn) of the real icsim simulator, walked through revisions 13..latest as icsim's own Env does, " +
 			"followed by 3-6 terms of history with 0-4 tape-drawn operations per block (setStake up/down/zero/too much/below use, setDelegation and setBond valid/over-committing/" +
@@ -13,7 +13,7 @@ func init() {
 			"governance disqualification, double-sign reports) while up to two validators stop voting for drawn stretches. After EVERY block all accounts, P-Reps and network totals " +
 			"are read back through the public query API and recounted. Non-trivial = the history covered at least 3 term changes without an oracle failure; distinct = distinct event-log hash.",
 		QuickProbes:     []string{"unstake_expired", "slash_applied", "over_delegation_rejected", "prep_unregistered", "iscore_claimed", "term_changed"},
-		EssentialProbes: []string{"unstake_expired", "slash_applied", "over_delegation_rejected", "prep_unregistered", "iscore_claimed", "term_changed", "penalty_imposed", "prep_disqualified", "unbond_expired"},
+		EssentialProbes: []string{"unstake_expired", "slash_applied", "over_delegation_rejected", "prep_unregistered", "iscore_claimed", "term_changed", "penalty_imposed", "prep_disqualified", "unbond_expired", "two_unstake_slots_same_expiry"},
 		Assumptions: []string{
 			"the set of accounts that can hold ICX is closed: users, P-Rep owners, treasury, system address, governance and the initial validators (nothing else is ever a transfer target, bonder or reward receiver in a run)",
 			"icsim charges no transaction fees and issues no ICX (its base transaction only carries consensus info): 'failed operations change nothing but the fee' is checked as 'change nothing', and issuance is outside this check; I-Score claims are paid from a pre-funded treasury",
@@ -21,6 +21,7 @@ func init() {
 			"delegation/bond lists pass through icstate.NewDelegations/NewBonds (the API's parameter validation) before they reach the simulator, which would otherwise skip it",
 			"all staking starts in the simulator's second term: its reward calculator skips the very first term, so votes cast there cannot be reduced later without failing the calculation (reproduces with icsim.NewEnv alone)",
 			"a block the simulator cannot execute ends the run without a verdict (C34 does not speak about failing blocks); counted as block_failed_* probes and described in /verif/findings/C34-observation-*.md",
+			"a quarter of the stake decreases are followed by a second decrease in the same block (two unstake slots with one expiry height) and UnstakeSlotMax is 2-4: this steers histories towards the known finding unstake-overdue|shared-expiry-slot-timer-removed (/verif/findings/C34-unstake-shared-expiry.md); any other overdue unstake has signature unstake-overdue|other",
 			"the time at which an unbond expires is not part of C34 (only unstakes are); late unbonds are counted (unbond_overdue_observed), not reported",
 		},
 		Real: []string{"icon/icsim simulator (GoByBlock, query API)", "icon/iiss ExtensionStateImpl: SetStake, SetDelegation, SetBond, SetBonderList, RegisterPRep, UnregisterPRep, DisqualifyPRep, ClaimIScore, commission rates, HandleConsensusInfo penalties, HandleDoubleSignReport, slash, timer handling, term change",
